@@ -355,15 +355,28 @@ reg(Check("C14", "model_checking",
                  Part("acl", SRV, "^TestVerifC14Acl$", instr=True, gomaxprocs=16, deadline=(300, 2400))]))
 
 reg(Check("C10", "model_checking",
-          "(being extended) online counters = attached foreground sessions on every transition of the acl and p2p searches and at quiescence of every explored schedule of the C14 race scenarios",
-          ["canonical schedule for the searches; deviation-bounded schedules for the races"],
-          text=XS_NOTE, note="presence convergence scenarios pending", technique="explicit-state + stateless model checking of the implementation",
+          "pres: BFS to depth 4 (quick) / 6 (thorough) over 20 operations (two users a, b with a p2p topic and a shared group, a stranger c; a has "
+          "two sessions: attach / leave 'me', disconnect + reconnect, mute / unmute the partner, attach / leave the p2p topic and the group, a 20 s "
+          "clock tick which unloads idle topics and fires deferred notifications); after every step each attached session's last belief about its "
+          "partner and about the group is compared with the truth, nothing reaches the stranger or a muted party. acl / p2p: the online counter of "
+          "every user on the topic equals the number of attached sessions on every transition of those searches. notifications: BFS to depth 3 / 4 "
+          "over 18 operations (publish, read / recv / kp notes, hard / soft delete, description and tag changes, mute, un-mute, ban, grant, evict, "
+          "leave, attach, re-subscribe, reload) on a group watched from 'me' by a plain member, a muted member, a member without R, a stranger, a "
+          "removed and a banned user: every {pres} about the group reaching a 'me' session needs a live subscription with P before or after the "
+          "step (acs / gone: a subscription). races / presraces: all schedules up to the deviation bound (1-2 quick, 2-3 thorough) of the 9 C14 "
+          "collision scenarios and of 5 presence scenarios (two users attaching 'me' at once, leave vs attach, two sessions leaving, "
+          "disconnect vs attach, idle unload vs attach)",
+          ["canonical schedule for the searches; deviation-bounded schedules for the races",
+           "deferred notifications are judged after an explicit clock tick; background sessions do not exist at this commit (hi.bkg is not copied)"],
+          text=XS_NOTE + "; stateless exploration of schedules for the race scenarios", note="",
+          technique="explicit-state + stateless model checking of the implementation",
           engine="E1 detsched + E2 xstate", claimed=True,
           parts=[Part("pres", SRV, "^TestVerifC10Pres$", instr=True, gomaxprocs=16, deadline=(300, 2400)),
                  Part("acl", SRV, "^TestVerifC10Acl$", instr=True, gomaxprocs=16, deadline=(300, 2400)),
                  Part("p2p", SRV, "^TestVerifC10P2P$", instr=True, gomaxprocs=16, deadline=(300, 2400)),
                  Part("races", SRV, "^TestVerifC10Races$", instr=True, shards=(16, 16), deadline=(300, 3000)),
-                 Part("presraces", SRV, "^TestVerifC10PresRaces$", instr=True, shards=(16, 16), deadline=(300, 3000))]))
+                 Part("presraces", SRV, "^TestVerifC10PresRaces$", instr=True, shards=(16, 16), deadline=(300, 3000)),
+                 Part("notifications", SRV, "^TestVerifC10Notifications$", instr=True, gomaxprocs=16, deadline=(300, 2400))]))
 
 reg(Check("C15", "model_checking",
           "BFS over 5 invitations (caller's two sessions, callee, outsider, group), 24 call events (ringing/accept/offer/answer/candidate/hang-up from "
